@@ -221,9 +221,11 @@ unsigned int irc_pton(irc_inaddr *addr, unsigned int *bits, const char *input, i
         case '/':
             addr->in6[ii++] = htons(part);
             if (!bits || !isdigit(input[pos + 1])) {
-                if (allow_trailing)
-                    goto finish;
-                return 0;
+                if (!allow_trailing)
+                    return 0;
+                if (bits)
+                    *bits = 128;
+                goto finish;
             }
             for (part = 0; isdigit(input[++pos]); )
                 part = part * 10 + input[pos] - '0';
